@@ -30,6 +30,9 @@ VALID = [
     "while True:\n    break\n",
     'd = {"k": [1, 2]}\nprint(d["k"])\n',
     "é = 1\nprint(é)\n",
+    's = "a\x0bb"\nprint(s)\n',
+    "t = 'x\x0cy\u2028z'\nu = 'k\x1cl\x85m'\n",
+    'import os\nw = """one\x1dtwo\u2029three"""\nprint(os.sep, w)\n',
 ]
 
 COMMENT_ONLY = [
@@ -53,7 +56,14 @@ CODING_LIKE = [
     "# coding: ascii\ns = 'é'\n",
 ]
 
-FIXED_BAD = COMMENT_ONLY + [
+# texts made only of characters that str.strip() removes: the information separators 0x1c-0x1f (which the regex
+# module's \s does NOT match), and every other Unicode white space, alone and mixed with blanks and newlines
+UNICODE_WS = ["\x1c", "\x1d", "\x1e", "\x1f", "\x0b", "\x0c", "\x85", "\xa0", "\u1680", "\u2000", "\u2003", "\u200a",
+              "\u2028", "\u2029", "\u202f", "\u205f", "\u3000"]
+WS_ONLY = ["\x1c\n \x1d\t\n\x1e\x1f\n", "\x1c", "\x1f\n", " \x1e ", "\n\x1d\n", "\x1c\x1d\x1e\x1f"] + UNICODE_WS[4:] + [
+    " " + c + "\n\t" + c + " \n" for c in UNICODE_WS]
+
+FIXED_BAD = COMMENT_ONLY + WS_ONLY[:8] + [
     "x = (1,\n", 'x = """abc\n', "if x:\n        y = 1\n    z = 2\n", "x = 1\x00\n", "", "   \n\n", "\t",
     "x = 1\x0c\n", "def (:\n", "x = 'a\n", "\\", "x = 1 \\", "if x:\n\ty=1\n        z=2\n", "\ufeffx = 1\n",
     "x = $\n", "x = 1\r y = 2\n", "x = 0777\n", "a = 1\n  b = 2\n", "\x00", "\n", "pass\n", "x = )\n", "]\n",
@@ -66,6 +76,10 @@ def mutate(rng, text):
     """One malformed-stream mutation of a valid program."""
     kind = rng.choice(["trunc", "trunc", "bracket", "quote", "indent", "dedent", "ctrl", "nul", "delete",
                        "dup", "tab", "backslash", "empty", "blank", "comments", "comments"])
+    if rng.random() < 0.12:
+        # only white space of some Unicode kind (information separators included), alone or mixed with blanks
+        k = rng.randint(1, 6)
+        return "".join(rng.choice(UNICODE_WS + [" ", "\n", "\t", "\n"]) for _ in range(k)) if rng.random() < 0.6 else rng.choice(WS_ONLY), "unicode_ws"
     if kind == "comments":
         # only ordinary comments (and blank lines) are left: parses to an empty module
         how = rng.choice(["all", "all", "blanks", "fixed", "code_removed"])
@@ -122,6 +136,32 @@ def mutate(rng, text):
     return text[:i] + "\\" + text[i:], "backslash"
 
 
+IMPORTER_SIG = ("importer of a bad file: its import label is import_internally:<b> (taxon import/personal) while the bad file is "
+                "collected and import:<b> (import/third_party/... or import/standard/...) when it is absent; nothing else differs")
+
+
+def only_importer_deviation(rec_with, rec_without, badset):
+    """True iff the two records differ ONLY by the internal/external status of the imports of bad files: same source and
+    timestamp; un-relabelling the `…_internally:` labels that name a bad file gives exactly the other label dictionary; the
+    taxa differ only under `import/`."""
+    if rec_with["source"] != rec_without["source"] or rec_with["timestamp"] != rec_without["timestamp"]:
+        return False
+    back = {}
+    for name, spans in rec_with["labels"].items():
+        if name.startswith(("import_internally:", "import_module_internally:")):
+            target = name.split(":", 2)[1]
+            if target + ".py" in badset:
+                name = name.replace("_internally:", ":", 1).replace("/", ".")
+        if name in back:
+            return False
+        back[name] = spans
+    if back != rec_without["labels"]:
+        return False
+    ta = {k: v for k, v in rec_with["taxa"].items() if not k.startswith("import/")}
+    tb = {k: v for k, v in rec_without["taxa"].items() if not k.startswith("import/")}
+    return ta == tb
+
+
 def exc_info(e):
     return {"exc": type(e).__name__, "caught": isinstance(e, (SyntaxError, ValueError))}
 
@@ -134,6 +174,7 @@ class Oracle:
         self.parser = ProgramParser()
         self.clean = {"full": {}, "none": {}}
         self.prepare = {}
+        self.prepare_errors = []
         self.parse = {}
 
     def clean_of(self, strategy, raw):
@@ -156,7 +197,13 @@ class Oracle:
     def prepare_of(self, text):
         from paroxython.list_programs import get_program
         if text not in self.prepare:
-            self.prepare[text] = str(get_program(text, Path("x.py")).source)
+            try:
+                self.prepare[text] = str(get_program(text, Path("x.py")).source)
+            except RecursionError:
+                raise
+            except Exception as e:  # noqa  (get_program must not raise on a hint-free text: the run will report it)
+                self.prepare_errors.append({"text": text[:200], "exc": type(e).__name__})
+                self.prepare[text] = text.strip()
         return self.prepare[text]
 
     def parse_of(self, src):
@@ -173,7 +220,14 @@ class Oracle:
                 self.parse[src] = {"empty": True}
                 return self.parse[src]
             # the rest of ProgramParser.__call__ = the feature search, on a program holding that source
-            program = get_program(src, Path("x.py"))
+            try:
+                program = get_program(src, Path("x.py"))
+            except RecursionError:
+                raise
+            except Exception as e:  # noqa
+                self.prepare_errors.append({"text": src[:200], "exc": type(e).__name__})
+                self.parse[src] = {"features_exc": exc_info(e)}
+                return self.parse[src]
             if program.source != src:
                 program = program._replace(source=src)
             try:
@@ -205,8 +259,11 @@ def real_collect(root, out_dir, strategy):
     from paroxython.make_db import TagDatabase
     rec = c11.Recorder()
     try:
-        with c11.recording(rec):
+        with c11.recording(rec), c11.deadline(c11.DEADLINE):
             db = c11.quiet(TagDatabase, root, ignore_timestamps=True, cleanup_strategy=strategy)
+    except c11.Watchdog:
+        return {"exc": "Timeout", "msg": f"TagDatabase did not return within {c11.DEADLINE} s: collecting must terminate "
+                                          "for every import graph"}, rec
     except RecursionError:
         return {"exc": "RecursionError"}, rec
     except Exception as e:  # noqa
@@ -242,7 +299,9 @@ def judge(ctx, drv, orc, files, root, out_dir, strategy):
     if "exc" in impl:
         # the property is violated: the collection aborted
         agree = "exc" in m and m["exc"] == impl["exc"]
-        v.update(kind="violation", what=f"collect aborted with {impl['exc']} (cleanup={strategy})", signature=None,
+        what = (f"collect does not terminate (cleanup={strategy})" if impl["exc"] == "Timeout"
+                else f"collect aborted with {impl['exc']} (cleanup={strategy})")
+        v.update(kind="violation", what=what, signature=None,
                  model_agrees=agree)
         if not agree:
             v["corr_broken"] = True
@@ -254,6 +313,17 @@ def judge(ctx, drv, orc, files, root, out_dir, strategy):
                  what=f"model predicts abort ({m['exc']} at {m.get('stage')}), implementation returns"
                       + ("" if ok else " a database that does not report every file as the property says"))
         return v
+    from paroxython.preprocess_source import Cleanup
+    for p in order:
+        if "paroxython" in raws[p].lower() or p not in impl["json"]["programs"]:
+            continue
+        c = next(v_ for k_, v_ in tables["clean"] if k_ == raws[p])
+        expected = (c["ok"] if "ok" in c else raws[p]).strip()
+        stored = impl["json"]["programs"][p]["source"]
+        if stored != expected:
+            v.update(kind="violation", what=f"stored source of {p} is not verbatim the cleaned, hint-free source",
+                     stored=stored, expected=expected)
+            return v
     d = c11.first_diff(impl["json"], c11.model_to_obj(m))
     if d is not None:
         ok = spec_check(drv, info, impl["json"])
@@ -303,6 +373,14 @@ def gen_dir(rng):
         files[nm] = t
         bad.append(nm)
         kinds.append(k)
+    if rng.random() < 0.25:
+        # an import cycle (length 1-3) reached from 1-2 programs outside it, named to sort before / after its members
+        k = rng.choice([1, 2, 3])
+        members = rng.sample(["m_utils", "n_vectors", "o_core"], k)
+        for j, nm in enumerate(members):
+            files[f"{nm}.py"] = f"import {members[(j + 1) % k]}\n" + rng.choice(VALID)
+        for o in rng.sample(["a_main", "zz_main", "b_entry"], rng.choice([1, 2])):
+            files[f"{o}.py"] = f"import {rng.choice(members)}\n" + rng.choice(VALID)
     if n_good >= 1 and rng.random() < 0.2:
         # a (bad or empty) file named like a dotted module, and a good file importing that uncollected module
         mod = rng.choice(["os.path", "xml.dom", "a.b", "pkg.sub.m"])
@@ -355,15 +433,16 @@ def shrink(ctx, drv, orc, base, files, strategy, v0, tag):
         return w["kind"] == "violation" and w["what"] == v0["what"] and w.get("signature") == v0.get("signature")
 
     files = dict(files)
+    cap = 6 if "terminate" in v0["what"] else 40  # a non-terminating candidate costs a whole deadline
     for p in list(files):
-        if len(files) > 1:
+        if len(files) > 1 and counter[0] < cap:
             cand = {k: t for k, t in files.items() if k != p}
             if fails(cand):
                 files = cand
     for p in list(files):
         lines = files[p].split("\n")
         i = 0
-        while i < len(lines) and len(lines) > 1 and counter[0] < 40:
+        while i < len(lines) and len(lines) > 1 and counter[0] < cap:
             cand = dict(files)
             cand[p] = "\n".join(lines[:i] + lines[i + 1:])
             if fails(cand):
@@ -384,6 +463,19 @@ def stream_dirs(ctx, drv, orc, n_dirs):
         ({"a.py": "import b\nx = 1\n", "b.py": "import a\n", "c.py": "def (:)\n"}, ["c.py"]),
         ({"a.py": "x = $\n"}, ["a.py"]),
         ({"a.py": "x = 1\n", "b.py": "# just a comment\n"}, ["b.py"]),
+        ({"a.py": "x = 1\n", "b.py": WS_ONLY[0]}, ["b.py"]),
+        ({"a.py": WS_ONLY[1], "b.py": WS_ONLY[3], "c.py": "import a\n", "d.py": WS_ONLY[5]}, ["a.py", "b.py", "d.py"]),
+        ({"a.py": WS_ONLY[9], "b.py": WS_ONLY[12], "c.py": WS_ONLY[-1], "d.py": WS_ONLY[-5], "e.py": "y = 2\n"},
+         ["a.py", "b.py", "c.py", "d.py"]),
+        # an importer of the bad file (review finding: internality depends on the presence of the file)
+        ({"g.py": "import b\n", "b.py": "x = (1,\n"}, ["b.py"]),
+        ({"g.py": "from pkg.b import f\nimport os\nprint(f(os.sep))\n", "pkg/b.py": "def f(:\n", "h.py": "x = 1\n"}, ["pkg/b.py"]),
+        # import cycles reached from a program OUTSIDE the cycle whose name sorts before its members
+        ({"broken.py": "x = (1,\n", "main.py": "import utils\nprint(1)\n", "utils.py": "import vectors\n",
+          "vectors.py": "import utils\n"}, ["broken.py"]),
+        ({"a.py": "import b\n", "b.py": "import b\nx = 1\n", "c.py": "def (:)\n"}, ["c.py"]),
+        ({"a_main.py": "import n\n", "m.py": "import n\n", "n.py": "import o\n", "o.py": "import m\n",
+          "zz.py": "import o\n", "bad.py": ""}, ["bad.py"]),
         ({"a.py": CODING_LIKE[0], "b.py": CODING_LIKE[1], "c.py": "x = (1,\n"}, ["c.py"]),
         ({"a.py": CODING_LIKE[2], "b.py": CODING_LIKE[3], "c.py": CODING_LIKE[4], "d.py": ""}, ["d.py"]),
         ({"a.py": CODING_LIKE[5], "b.py": CODING_LIKE[6], "c.py": CODING_LIKE[7], "d.py": CODING_LIKE[8], "e.py": CODING_LIKE[9]}, ["d.py"]),
@@ -440,12 +532,34 @@ def stream_dirs(ctx, drv, orc, n_dirs):
                             names = list(w["json"]["programs"][p]["labels"])
                             found = drv.call("c11.relabel", paths=[], names=names)["search"]
                             imports_bad = any(m is not None and m.replace(".", "/") + ".py" in badset for m in found)
-                            if not imports_bad and v["json"]["programs"][p] != w["json"]["programs"][p]:
+                            rec_with, rec_without = v["json"]["programs"][p], w["json"]["programs"][p]
+                            if rec_with == rec_without:
+                                continue
+                            if not imports_bad:
                                 ctx.violations.append({
                                     "what": f"record of {p} changes when the bad files are removed",
                                     "replay": {"kind": "others", "files": files, "bad": bad, "cleanup": strategy,
-                                               "impl": {"with": v["json"]["programs"][p], "without": w["json"]["programs"][p]},
+                                               "impl": {"with": rec_with, "without": rec_without},
                                                "model": "C14_others_unaffected: equal records", "spec": "equal records"}})
+                                continue
+                            # p imports a bad file: the property text has no proviso ("every other program gets the same
+                            # record as if the bad file were absent"), so any difference is a violation. The ONE expected
+                            # deviation (internality is decided by the presence of the file) gets the narrow signature.
+                            ctx.dist("others.importer_of_bad_file")
+                            sig = IMPORTER_SIG if only_importer_deviation(rec_with, rec_without, badset) else None
+                            small_files = {p: files[p], **{b: files[b] for b in bad if b in files}}
+                            ctx.violations.append({
+                                "what": f"record of {p}, which imports a bad file, differs from its record when the bad file is absent"
+                                        + ("" if sig else " in MORE than the internal/external status of that import"),
+                                "signature": sig,
+                                "replay": {"kind": "others-importer", "files": files, "bad": bad, "program": p, "cleanup": strategy,
+                                           "minimal": small_files,
+                                           "impl": {"with": {"labels": sorted(n for n in rec_with["labels"] if "import" in n),
+                                                             "taxa": sorted(n for n in rec_with["taxa"] if n.startswith("import/"))},
+                                                    "without": {"labels": sorted(n for n in rec_without["labels"] if "import" in n),
+                                                                "taxa": sorted(n for n in rec_without["taxa"] if n.startswith("import/"))}},
+                                           "model": "Props/C14.lean C14_importer_relabel: import_internally:<b> with the file, import:<b> without",
+                                           "spec": "C14 text: the same record as if the bad file were absent"}})
             elif v["kind"] == "broken":
                 pass
             else:
@@ -460,6 +574,9 @@ def stream_dirs(ctx, drv, orc, n_dirs):
                     small, w = files, v
                 seen_known += 1
                 record_violation(ctx, w, small, strategy)
+        if sum(1 for x in ctx.violations if "terminate" in x.get("what", "")) >= 3:
+            ctx.notes.append("directory stream stopped after three non-terminating runs (each costs a deadline)")
+            break
         if i % 10 == 9:
             import shutil
             for sub in base.iterdir():
@@ -481,7 +598,7 @@ def stream_tag(ctx, drv, orc, n):
     from paroxython.map_taxonomy import Taxonomy
 
     taxonomy = Taxonomy()
-    texts = list(FIXED_BAD[:8]) + [VALID[0]]
+    texts = list(FIXED_BAD[:8]) + [VALID[0]] + WS_ONLY[:3] + [VALID[-1]]
     while len(texts) < n:
         t, _ = mutate(ctx.rng, ctx.rng.choice(VALID))
         texts.append(t)
@@ -533,6 +650,39 @@ def stream_tag(ctx, drv, orc, n):
             ctx.notes.append({"source": raw, "impl": out, "model": {"labels": model_labels, "taxa": model_taxa}})
 
 
+def check_meta_ast_hypotheses(ctx, names):
+    """The three oracle hypotheses of Props/C14.lean `C14_meta_ast`, evaluated with the real `regex` engine on the real
+    taxonomy.tsv for every error name met: the label does not look like a taxon; the row
+    (meta/ast/\\1, ast_construction:(.+)) matches it entirely and expands to meta/ast/<E>; no other row applies."""
+    import regex
+    from paroxython.map_taxonomy import is_literal
+    text = (core.REPO / "paroxython" / "resources" / "taxonomy.tsv").read_text().partition("-- EOF")[0].strip()
+    rows = [tuple(line.strip().split(maxsplit=2)[:2]) for line in text.split("\n")[1:]]
+    ast_row = ("meta/ast/\\1", "ast_construction:(.+)")
+    looks = regex.compile(r"^\w+/.+$").match
+    bad = []
+    for e in sorted(names):
+        label = f"ast_construction:{e}"
+        if looks(label):
+            bad.append((e, "looks like a taxon"))
+        applied = []
+        for (t, pat) in rows:
+            if is_literal(pat):
+                if pat == label:
+                    applied.append(((t, pat), t))
+            else:
+                m = regex.fullmatch(pat, label)
+                if m:
+                    applied.append(((t, pat), m.expand(t)))
+        if applied != [(ast_row, f"meta/ast/{e}")]:
+            bad.append((e, applied[:3]))
+        ctx.count("meta-ast-oracle-hypotheses", e, nontrivial=True)
+    if bad:
+        ctx.broken.append("hyp:C14_meta_ast")
+        ctx.notes.append({"C14_meta_ast hypotheses fail for the real regex engine / table": bad})
+    ctx.cov["meta_ast_error_names"] = sorted(names)
+
+
 def stream_classes(ctx, n):
     """Implementation-only: exception classes of ast.parse / Cleanup('full').run on the malformed stream."""
     from paroxython.preprocess_source import Cleanup
@@ -578,6 +728,13 @@ def run(ctx):
                                               "model": "ParseCaught is an assumption", "spec": "SyntaxError/ValueError"}})
         stream_tag(ctx, drv, orc, 50 if quick else 400)
         stream_dirs(ctx, drv, orc, 120 if quick else 1200)
+        if orc.prepare_errors:
+            ctx.notes.append({"get_program raised on hint-free texts": orc.prepare_errors[:5]})
+            if not ctx.violations:
+                ctx.broken.append("oracle:get_program-raises")
+        names = {"EmptyProgramError", "SyntaxError", "IndentationError", "TabError", "ValueError"}
+        names |= {k.split(".")[-1] for k in ctx.cov["distribution"] if ".parse." in k and k.split(".")[-1][:1].isupper()}
+        check_meta_ast_hypotheses(ctx, names)
     finally:
         drv.close()
     ctx.cov["proved"] = [t for t, ax in ctx.cov.get("theorems", {}).items() if ax != "DOES-NOT-CHECK"]
